@@ -180,28 +180,32 @@ def run_output_vcf(case):
     orig_conv, orig_np = sg._convert_haplotype, sg.np
     rp = SD._RandProxy(np.random)
 
-    def conv(haplotype, chrom, pop_dict, pop_sample, sample_dict, haps_used, no_replacement):
-        # inputs of the call, as the function sees them (lists of the population -> samples map in their current order)
-        labels = sorted(pop_dict)
-        pop_samples = [[]] * (max(labels) + 1 if labels else 0)
-        pop_samples = [[int(sample_dict[x]) for x in pop_sample.get(pop_dict[l], [])] if l in pop_dict else [] for l in range(max(labels) + 1)] if labels else []
-        hap_in = [SD.seg_t(s)[:3] + [0] for s in haplotype]
-        frs_calls.clear()
-        r = orig_conv(haplotype, chrom, pop_dict, pop_sample, sample_dict, haps_used, no_replacement)
-        choices = []
-        for lab, ind in zip(r[1], r[3]):
-            lst = pop_samples[int(lab)] if int(lab) < len(pop_samples) else []
-            choices.append(lst.index(int(ind)) if int(ind) in lst else len(lst))  # len(lst): drawn outside its population
-        rec.append({"chrom": cnum(chrom), "ends": [int(x) for x in r[0]], "pops": [int(x) for x in r[1]], "names": [str(x) for x in r[2]], "inds": [int(x) for x in r[3]], "strands": [int(x) for x in r[4]], "nlog": len(rp.log), "hap_in": hap_in, "pop_samples": pop_samples, "choices": choices, "requests": [list(x) for x in frs_calls] if no_replacement else None})
+    def conv(*a, **k):
+        with C.glue("recording _convert_haplotype (entry)"):
+            haplotype, chrom, pop_dict, pop_sample, sample_dict, haps_used, no_replacement = list(C.bind_args(orig_conv, a, k).values())[:7]
+            # inputs of the call, as the function sees them (lists of the population -> samples map in their current order)
+            labels = sorted(pop_dict)
+            pop_samples = [[int(sample_dict[x]) for x in pop_sample.get(pop_dict[l], [])] if l in pop_dict else [] for l in range(max(labels) + 1)] if labels else []
+            hap_in = [SD.seg_t(s)[:3] + [0] for s in haplotype]
+            frs_calls.clear()
+        r = orig_conv(*a, **k)
+        with C.glue("recording _convert_haplotype (exit)"):
+            choices = []
+            for lab, ind in zip(r[1], r[3]):
+                lst = pop_samples[int(lab)] if int(lab) < len(pop_samples) else []
+                choices.append(lst.index(int(ind)) if int(ind) in lst else len(lst))  # len(lst): drawn outside its population
+            rec.append({"chrom": cnum(chrom), "ends": [int(x) for x in r[0]], "pops": [int(x) for x in r[1]], "names": [str(x) for x in r[2]], "inds": [int(x) for x in r[3]], "strands": [int(x) for x in r[4]], "nlog": len(rp.log), "hap_in": hap_in, "pop_samples": pop_samples, "choices": choices, "requests": [list(x) for x in frs_calls] if no_replacement else None})
         return r
 
     # --no_replacement: the (start, end) stretches requested from _find_random_sample during one _convert_haplotype call
     frs_calls = []
     orig_frs = sg._find_random_sample
 
-    def frs(samples, sample_dict, haps_used, chrom, start_coord, end_coord):
-        frs_calls.append((int(start_coord), int(end_coord)))
-        return orig_frs(samples, sample_dict, haps_used, chrom, start_coord, end_coord)
+    def frs(*a, **k):
+        with C.glue("recording _find_random_sample"):
+            start_coord, end_coord = list(C.bind_args(orig_frs, a, k).values())[4:6]
+            frs_calls.append((int(start_coord), int(end_coord)))
+        return orig_frs(*a, **k)
 
     sg._find_random_sample = frs
 
